@@ -171,6 +171,35 @@ class ZooMesh:
         ex = dict(self.exact, measure=i2, centroid=np.array([0.5 * i3 / i2, 0.5 * i3 / i2, iz / i2]))
         return ZooMesh(co, self.groups, ex, name or f"{self.name}|taper", self.boundary)
 
+    def curved(self, amp=0.06, name=None) -> "ZooMesh":
+        """Elements of order >= 2 with CURVED interior edges / faces: every node that is neither a vertex of an element nor on
+        the boundary of the domain is displaced by amp * (shortest vertex distance) in a direction that depends on its position
+        (shared nodes move once, so the mesh stays conforming).  The boundary is untouched, hence the tiled domain, its measure
+        and its centroid are unchanged, while the element maps are no longer affine (simplices) / multilinear (quads, hexas):
+        the Jacobian varies inside every element that owns a moved node.  In 1D the mid nodes slide along the member
+        (non-uniform parametrisation).  Linear fields stay in the isoparametric space, so the patch test still holds wherever the
+        stiffness rule integrates cof(J) grad N exactly (every type of the library but TETRA10 with its 4-point rule)."""
+        co = self.coords.copy()
+        d = self.dim
+        vert, h = set(), np.inf
+        for et, con in self.groups.items():
+            nv = local_coords(LINEAR_OF[topo(et)]).shape[0]
+            vert.update(con[:, :nv].ravel().tolist())
+            X = co[con[:, :nv]]
+            dd = np.linalg.norm(X[:, :, None, :] - X[:, None, :, :], axis=-1)
+            dd[dd == 0] = np.inf
+            h = min(h, float(dd.min()))
+        bn = set(self.boundary_nodes().tolist())
+        moved = [i for i in range(self.Nn) if i not in vert and i not in bn]
+        for i in moved:
+            x = co[i].copy()
+            ph = np.array([np.sin(7.3 * x[0] + 1.1 * x[1] + 2.9 * x[2] + 0.4), np.cos(5.1 * x[0] - 3.3 * x[1] + 1.7 * x[2] + 1.0),
+                           np.sin(2.3 * x[0] + 4.7 * x[1] - 3.1 * x[2] + 2.0)])
+            co[i, :d] += amp * h * ph[:d]
+        out = ZooMesh(co, self.groups, dict(self.exact), name or f"{self.name}|curved", self.boundary)
+        out.n_moved = len(moved)
+        return out
+
     def mapped(self, A=None, b=None, name=None) -> "ZooMesh":
         """Affine image x -> A x + b (A 3x3)."""
         A = np.eye(3) if A is None else np.asarray(A, dtype=float)
